@@ -7,10 +7,10 @@ from .internal import value_properties as _value_properties
 
 
 def _splitlines(s: str) -> list[str]:
-    lines = s.splitlines(keepends=True)
-    if not lines or lines[-1].endswith('\n'):
-        lines.append('')
-    return lines
+    # Only "\n" ends a line: that is what the grammar's _NEWLINE (/\r*\n/) does. str.splitlines() would also
+    # break at "\r", "\f", "\v", U+2028, etc., all of which may appear inside a comment line.
+    lines = s.split('\n')
+    return [line + '\n' for line in lines[:-1]] + [lines[-1]]
 
 
 @_registry.token_model
